@@ -140,7 +140,9 @@ SIG_FUN = {"forward": "asig", "inverse": "asig_inv", "fldj": "asig_fldj", "ildj"
 
 
 def sig_points(rnd, quick):
-    xs = [F(0), F(1, 2 ** 20), F(1, 4), F(3, 4), F(1), F(4), F(1000), F(2 ** 20)]
+    xs = [F(0), F(1, 2 ** 20), F(1, 4), F(3, 4), F(1), F(4), F(1000), F(2 ** 20),
+          # the tails 1e4 .. 1e8 (1 + x^2 is still finite and exact enough in float64)
+          F(9999), F(10001), F(20000), F(2 ** 14), F(10 ** 5), F(2 ** 17) + F(1, 2), F(10 ** 6), F(2 ** 24), F(10 ** 8)]
     xs = xs + [-x for x in xs[1:]]
     ys = [F(0), F(1, 2 ** 20), F(1, 2), F(3, 4), 1 - F(1, 2 ** 10), 1 - F(1, 2 ** 20)]
     ys = ys + [-y for y in ys[1:]]
@@ -151,8 +153,10 @@ def sig_points(rnd, quick):
             xs.append(F(rnd.randint(-4096, 4096), 256))
         elif k < 0.8:
             xs.append(F(rnd.randint(-4096, 4096), 2 ** 16))
-        else:
+        elif k < 0.9:
             xs.append(F(rnd.randint(-2 ** 20, 2 ** 20), 4))
+        else:
+            xs.append(F(rnd.choice([-1, 1]) * rnd.randint(10 ** 4, 10 ** 8)))
         ys.append(F(rnd.randint(-4095, 4095), 4096))
     return xs, ys
 
@@ -231,18 +235,30 @@ def oracle_sig(c):
         if not (-1 <= v <= 1):
             return f"forward({a}) = {v} outside [-1, 1]"
         t = 1e-9 * max(1.0, abs(a)) + 8e-16 * (1 + a * a) * max(1.0, abs(a))
-        if abs(c["roundtrip"] - a) > t:
+        # |x| > ~9.5e7: x/sqrt(1+x^2) rounds to +-1.0 in float64 and the inverse of the rounded value is infinite; that is
+        # rounding, not the map (the forward value itself is tied to the model by its R-lemma)
+        if abs(v) < 1.0 and abs(c["roundtrip"] - a) > t:
             return f"inverse(forward({a})) = {c['roundtrip']} does not undo the forward map"
     elif fn == "inverse":
         if abs(c["roundtrip"] - a) > 1e-9:
             return f"forward(inverse({a})) = {c['roundtrip']} does not undo the inverse map"
     elif fn == "fldj":
+        # log-derivative of x / sqrt(1 + x^2) in closed form, relative tolerance: valid in the tails, where the
+        # autodiff derivative of the implementation's forward loses all digits to cancellation
+        want = -1.5 * math.log1p(a * a)
+        if abs(v - want) > 1e-9 * max(1.0, abs(want)):
+            return (f"forward_log_det_jacobian({a}) = {v} but the log-derivative of x/sqrt(1+x^2) at {a} is "
+                    f"-1.5*log(1+x^2) = {want}")
         if abs(a) <= 64:
             d = c["deriv"]
             if not d > 0 or abs(v - math.log(d)) > 1e-9 * max(1.0, abs(v)) + 4e-15 * (1 + a * a):
                 return (f"forward_log_det_jacobian({a}) = {v} is not the log of the derivative of forward "
                         f"({d}, log {math.log(d) if d > 0 else 'undefined'})")
     else:
+        want = -1.5 * math.log1p(-a * a)
+        if abs(v - want) > 1e-9 * max(1.0, abs(want)):
+            return (f"inverse_log_det_jacobian({a}) = {v} but the log-derivative of y/sqrt(1-y^2) at {a} is "
+                    f"-1.5*log(1-y^2) = {want}")
         d = c["deriv"]
         if not d > 0 or abs(v - math.log(d)) > 1e-9 * max(1.0, abs(v)):
             return (f"inverse_log_det_jacobian({a}) = {v} is not the log of the derivative of inverse "
@@ -258,10 +274,12 @@ def stmt_sig(c):
 # ----------------------------------------------------------------------------------------------
 # copula
 # ----------------------------------------------------------------------------------------------
-def ctor_outcome(rhos, validate, batched):
+def ctor_outcome(rhos, validate, batched, shape=None):
     import jax.numpy as jnp
     from liesel.distributions.copulas import GaussianCopula
     dep = jnp.asarray([float(r) for r in rhos], dtype=jnp.float64) if batched else jnp.float64(float(rhos[0]))
+    if shape:
+        dep = dep.reshape(tuple(shape))
     try:
         GaussianCopula(dependence=dep, validate_args=validate)
         return "ok"
@@ -271,16 +289,23 @@ def ctor_outcome(rhos, validate, batched):
         return "other:" + type(ex).__name__
 
 
-def run_cop(rhos, pts, validate, batched):
-    """log_prob of the copula with dependence rhos[i] at pts[i]; batched: one object with batch shape (n,)"""
+def run_cop(rhos, pts, validate, batched, shape=None):
+    """log_prob of the copula with dependence rhos[i] at pts[i]; batched: one object with batch shape (n,), or with the
+    n-d batch shape `shape` (rhos / pts in row-major order)"""
     import jax.numpy as jnp
     import numpy as np
     from liesel.distributions.copulas import GaussianCopula
     if batched:
         dep = jnp.asarray([float(r) for r in rhos], dtype=jnp.float64)
         x = jnp.asarray([[float(u), float(v)] for u, v in pts], dtype=jnp.float64)
+        if shape:
+            dep = dep.reshape(tuple(shape))
+            x = x.reshape(tuple(shape) + (2,))
         try:
-            return [float(t) for t in np.asarray(GaussianCopula(dependence=dep, validate_args=validate).log_prob(x))]
+            out = np.asarray(GaussianCopula(dependence=dep, validate_args=validate).log_prob(x))
+            if out.shape != (tuple(shape) if shape else (len(rhos),)):
+                return [f"raised:log_prob has shape {out.shape}"] * len(rhos)
+            return [float(t) for t in out.reshape(-1)]
         except Exception as ex:
             return [raised(ex)] * len(rhos)
     out = []
@@ -317,7 +342,7 @@ def gen_cop(ctx, rnd, cases):
             cases.append({"kind": "ctor", "rhos": [fs(r) for r in rs], "validate": validate, "batched": True,
                           "obs": ctor_outcome(rs, validate, True)})
     for c in cases:
-        if c["kind"] == "ctor":
+        if c["kind"] == "ctor" and "stratum" not in c:
             rs = [pf(r) for r in c["rhos"]]
             inside = all(-1 < r < 1 for r in rs)
             c["stratum"] = ("ctor.validate." if c["validate"] else "ctor.novalidate.") + (
@@ -338,12 +363,27 @@ def gen_cop(ctx, rnd, cases):
             for _ in range(2):
                 rs.append(r)
                 pts.append((upt(), upt()))
-        groups.append((rs, pts, validate, False))
+        groups.append((rs, pts, validate, False, None))
         # batched object: same dependences, fresh points
         rb = rhos[: (8 if ctx.quick else 60)]
-        groups.append((rb, [(upt(), upt()) for _ in rb], validate, True))
-    for rs, pts, validate, batched in groups:
-        obs = run_cop(rs, pts, validate, batched)
+        groups.append((rb, [(upt(), upt()) for _ in rb], validate, True, None))
+        # dependence with 2 and 3 batch dimensions, pairwise different entries: square, non-square, 3-d
+        shapes = [(2, 2), (2, 3), (2, 2, 2)] + ([] if ctx.quick else [(3, 3), (3, 2), (1, 4), (2, 3, 2), (3, 1, 2)])
+        for shape in shapes:
+            n = math.prod(shape)
+            rn = [F(-4, 5), F(1, 2), F(1, 10), F(9, 10)] if shape == (2, 2) else []
+            while len(rn) < n:
+                r = F(rnd.randint(-250, 250), 256)
+                if r not in rn:
+                    rn.append(r)
+            same = rnd.random() < 0.5        # one shared point for all cells (as in the demonstration) or one per cell
+            p0 = (upt(), upt())
+            groups.append((rn, [p0 if same else (upt(), upt()) for _ in rn], validate, True, list(shape)))
+            cases.append({"kind": "ctor", "rhos": [fs(r) for r in rn], "validate": validate, "batched": True,
+                          "shape": list(shape), "obs": ctor_outcome(rn, validate, True, shape),
+                          "stratum": ("ctor.validate." if validate else "ctor.novalidate.") + f"batch_ndim={len(shape)}"})
+    for rs, pts, validate, batched, shape in groups:
+        obs = run_cop(rs, pts, validate, batched, shape)
         qx = qnorm_oracle([p[0] for p in pts])
         qy = qnorm_oracle([p[1] for p in pts])
         for i, (r, (u, v)) in enumerate(zip(rs, pts)):
@@ -352,6 +392,11 @@ def gen_cop(ctx, rnd, cases):
             c["stratum"] = "cop." + ("validate." if validate else "novalidate.") + (
                 "rho=0" if r == 0 else "rho_near_pm1" if abs(r) > F(99, 100) else "rho<0" if r < 0 else "rho>0") + (
                 ".batched" if batched else "")
+            if shape:
+                c.update({"shape": shape, "idx": i, "all_rhos": [fs(t) for t in rs],
+                          "all_pts": [[fs(a), fs(b)] for a, b in pts]})
+                c["stratum"] = ("cop." + ("validate." if validate else "novalidate.") + f"batch_ndim={len(shape)}."
+                                + ("square" if len(set(shape)) == 1 else "nonsquare"))
             cases.append(c)
 
 
@@ -362,22 +407,27 @@ def closed_form(rho, x, y):
 def oracle_cop(c):
     from scipy.stats import norm
     rho, u, v = float(pf(c["rho"])), float(pf(c["u"])), float(pf(c["v"]))
+    where = ""
+    if c.get("shape"):
+        where = (f" [cell {c['idx']} (row-major) of the dependence batch of shape {tuple(c['shape'])} = "
+                 f"{[float(pf(t)) for t in c['all_rhos']]}]")
     if not isnum(c["obs"]):
         return (f"GaussianCopula(dependence={rho}, validate_args={c['validate']}).log_prob([{u}, {v}]) gives {c['obs']} "
-                f"(dependence in (-1, 1), point inside the unit square)")
+                f"(dependence in (-1, 1), point inside the unit square){where}")
     obs = float(pf(c["obs"]))
     x, y = float(norm.ppf(u)), float(norm.ppf(v))
     want = closed_form(rho, x, y)
     if abs(obs - want) > 1e-7 * max(1.0, abs(want)):
         return (f"GaussianCopula(dependence={rho}, validate_args={c['validate']}).log_prob([{u}, {v}]) = {obs} "
-                f"but the bivariate Gaussian copula log-density is {want}")
+                f"but the bivariate Gaussian copula log-density is {want}{where}")
     return None
 
 
 def oracle_ctor(c):
     rs = [pf(r) for r in c["rhos"]]
     if all(-1 < r < 1 for r in rs) and c["obs"] != "ok":
-        return (f"GaussianCopula(dependence={[float(r) for r in rs] if c['batched'] else float(rs[0])}, "
+        return (f"GaussianCopula(dependence={[float(r) for r in rs] if c['batched'] else float(rs[0])}"
+                f"{' reshaped to ' + str(tuple(c['shape'])) if c.get('shape') else ''}, "
                 f"validate_args={c['validate']}) raised {c['obs']} although every dependence lies in (-1, 1)")
     return None
 
@@ -511,10 +561,16 @@ def mvn_coords(g, e, p):
 def gen_mvn_group(rnd, spec):
     """spec: dict(dim, style, ctor, rkmode, lpmode, batch, rank, tolmode, locmode, repeated)"""
     d = spec["dim"]
-    refl = gen_refl(rnd, d, spec["style"])
+    rank = spec["rank"]
+    varmode = spec.get("varmode", "normal")
+    style = spec["style"]
+    if varmode == "tiny":
+        # pen / var is huge: keep the float evaluation of the quadratic form free of cancellation between null-space and
+        # range-space components (diagonal matrix when rank-deficient, exactly representable H otherwise)
+        style = "identity" if (rank < d or d < 4) else "dyadic"
+    refl = gen_refl(rnd, d, style)
     H = make_H(refl, d)
     B = 1 if spec["batch"] == "none" else rnd.randint(2, 3)
-    rank = spec["rank"]
     tol = None
     lo = F(1, 2 ** 16)
     if spec["tolmode"] == "custom":
@@ -525,11 +581,18 @@ def gen_mvn_group(rnd, spec):
         # one positive eigenvalue below the custom tolerance: dropped from rank / log-pdet, kept in the quadratic form
         base_lam = sorted([F(0)] * (d - rank) + [F(1, 64)] + [rnd.choice([p for p in POS_POOL if p >= F(1, 4)]) for _ in range(rank - 1)])
     base_loc = [F(0)] * d if spec["locmode"] == "zero" else [F(rnd.randint(-32, 32), 8) for _ in range(d)]
-    base_var = rnd.choice([F(1), F(2), F(1, 2), F(4), F(1, 8), F(8), F(3, 4), F(5, 2)])
+    VARS = {"normal": [F(1), F(2), F(1, 2), F(4), F(1, 8), F(8), F(3, 4), F(5, 2)],
+            # far outside the gap of the PLAIN constructor (eigenvalues of pen / var below / null noise near 1e-6):
+            # only used with from_penalty / from_penalty_smooth, which take rank and log-pdet from pen itself
+            "large": [F(2 ** 30), F(10 ** 9), F(10 ** 7), F(3 * 2 ** 22)],
+            "tiny": [F(1, 2 ** 20), F(1, 2 ** 30), F(1, 10 ** 6)]}
+    assert varmode == "normal" or spec["ctor"] in ("pen", "smooth")
+    base_var = rnd.choice(VARS[varmode])
     for e in range(B):
         lam = base_lam if (e == 0 or spec["batch"] != "prec") else gen_lam(rnd, d, rank, spec["repeated"])
         loc = base_loc if (e == 0 or spec["batch"] != "loc") else [F(rnd.randint(-32, 32), 8) for _ in range(d)]
-        var = base_var if (e == 0 or spec["batch"] != "var") else rnd.choice([F(1, 4), F(2), F(3), F(1, 2), F(6)])
+        var = base_var if (e == 0 or spec["batch"] != "var") else rnd.choice(
+            [F(1, 4), F(2), F(3), F(1, 2), F(6)] if varmode == "normal" else [v for v in VARS[varmode] if v != base_var])
         el = {"lam": [fs(t) for t in lam], "loc": [fs(t) for t in loc]}
         if spec["ctor"] == "pen":
             el["var"] = fs(var)
@@ -537,7 +600,7 @@ def gen_mvn_group(rnd, spec):
             el["smooth"] = fs(1 / var)
         els.append(el)
     g = {"dim": d, "refl": refl, "ctor": spec["ctor"], "batch": spec["batch"], "elems": els,
-         "tol": None if tol is None else fs(tol), "rk": None, "lp": None, "spec": True}
+         "tol": None if tol is None else fs(tol), "rk": None, "lp": None, "spec": True, "varmode": varmode}
     t = tol if tol is not None else TOL_DEFAULT
     lam0 = [pf(x) for x in els[0]["lam"]]
     true_rank = sum(1 for x in lam0 if x > t)
@@ -615,9 +678,10 @@ def random_mvn_spec(rnd):
                                 rnd.choice(["zero", "loc"]), rnd.random() < 0.3)))
 
 
-def family_groups(rnd, spec):
+def family_groups(rnd, spec, with_plain=True):
     """the same (H, pen, var, loc, points) under every constructor, with and without the (true) rank / log_pdet:
-    pen, pen+args, smooth, smooth+args, plain(pen/var), plain(pen/var)+args"""
+    pen, pen+args, smooth, smooth+args, plain(pen/var), plain(pen/var)+args.  with_plain=False: the from_penalty
+    family only (agreement for every var > 0; the plain constructor needs the gap on pen / var)"""
     import copy
     base = gen_mvn_group(rnd, dict(spec, ctor="pen", rkmode="none", lpmode="none", batch="none", tolmode="default"))
     el = base["elems"][0]
@@ -628,7 +692,7 @@ def family_groups(rnd, spec):
     lp_pen = fs(ff(sum(math.log(float(x)) for x in pen if x > TOL_DEFAULT)))
     lp_prec = fs(ff(sum(math.log(float(x)) for x in prec if x > TOL_DEFAULT)))
     out = [(base, "none", "none")]
-    for ctor in ("pen", "smooth", "plain"):
+    for ctor in ("pen", "smooth", "plain") if with_plain else ("pen", "smooth"):
         for given in (False, True):
             if ctor == "pen" and not given:
                 continue
@@ -666,6 +730,34 @@ def gen_mvn(ctx, rnd, cases):
         fam = family_groups(rnd, dict(sp, npts=1))
         for k, (g, rkm, lpm) in enumerate(fam):
             groups.append((g, rkm, lpm, None if k == 0 else fam[0][0]))
+    # from_penalty family with a huge / tiny variance (smoothing parameter): forced strata, plain constructor excluded
+    K = SPEC_KEYS
+    ext_specs = [dict(zip(K, (3, "int", "pen", "none", "none", "none", 2, "default", "loc", False)), varmode="large"),
+                 dict(zip(K, (6, "dyadic", "pen", "none", "none", "none", 4, "default", "loc", False)), varmode="large"),
+                 dict(zip(K, (4, "dyadic", "pen", "none", "none", "none", 4, "default", "loc", False)), varmode="tiny"),
+                 dict(zip(K, (3, "identity", "pen", "none", "none", "none", 2, "default", "loc", False)), varmode="tiny")]
+    ext_single = [dict(zip(K, (3, "int", "pen", "none", "none", "var", 2, "default", "loc", False)), varmode="large"),
+                  dict(zip(K, (4, "dyadic", "smooth", "none", "none", "var", 3, "default", "zero", True)), varmode="large"),
+                  dict(zip(K, (3, "int", "smooth", "none", "none", "none", 1, "default", "loc", False)), varmode="large"),
+                  dict(zip(K, (2, "identity", "smooth", "true", "given", "none", 1, "default", "loc", False)), varmode="tiny")]
+    for _ in range(0 if ctx.quick else 24):
+        sp = random_mvn_spec(rnd)
+        sp.update(dim=max(sp["dim"], 2), tolmode="default", varmode=rnd.choice(["large", "large", "tiny"]))
+        sp["rank"] = rnd.randint(1, sp["dim"])
+        if rnd.random() < 0.5:
+            ext_specs.append(sp)
+        else:
+            sp["ctor"] = rnd.choice(["pen", "smooth"])
+            sp["batch"] = rnd.choice(["none", "var", "loc"])
+            if sp["rkmode"] == "less":
+                sp["rkmode"] = "none"
+            ext_single.append(sp)
+    for sp in ext_specs:
+        fam = family_groups(rnd, dict(sp, npts=2), with_plain=False)
+        for k, (g, rkm, lpm) in enumerate(fam):
+            groups.append((g, rkm, lpm, None if k == 0 else fam[0][0]))
+    for sp in ext_single:
+        groups.append((gen_mvn_group(rnd, sp), sp["rkmode"], sp["lpmode"], None))
     n_single = n_single_diff = n_jit = 0
     jit_max = 0.0
     for gi, (g, rkmode, lpmode, ref) in enumerate(groups):
@@ -695,7 +787,8 @@ def gen_mvn(ctx, rnd, cases):
                 c["stratum"] = (f"mvn.{g['ctor']}.rank=" + ("0" if nz == 0 else "full" if nz == g["dim"] else "deficient")
                                 + f".rk={spec['rkmode']}.lp={spec['lpmode']}.batch={g['batch']}"
                                 + (".tol=custom" if g["tol"] else "") + (".nullshift" if g["points"][p]["shift_of"] is not None else "")
-                                + (".family" if ref is not None else ""))
+                                + (".family" if ref is not None else "")
+                                + ("" if g.get("varmode", "normal") == "normal" else f".var={g['varmode']}"))
                 cases.append(c)
                 if g["dim"] <= 3 and p == 0 and g["refl"]:
                     cases.append({"kind": "mvnm", "group": g, "e": e, "p": p,
@@ -993,9 +1086,9 @@ def case_key(c):
     if k == "sig":
         return (k, c["fn"], c["arg"])
     if k == "cop":
-        return (k, c["rho"], c["u"], c["v"], c["validate"], c["batched"])
+        return (k, c["rho"], c["u"], c["v"], c["validate"], c["batched"], str(c.get("shape")), c.get("idx"))
     if k == "ctor":
-        return (k, tuple(c["rhos"]), c["validate"])
+        return (k, tuple(c["rhos"]), c["validate"], str(c.get("shape")))
     if k in ("mvn", "mvnm"):
         g = c["group"]
         return (k, id(g), c["e"], c["p"])
@@ -1138,9 +1231,13 @@ def rerun(c):
         c["obs"] = enc(float(np.asarray(run_sig(c["fn"], [pf(c["arg"])]))[0]))
         sig_extras(c)
     elif k == "ctor":
-        c["obs"] = ctor_outcome([pf(r) for r in c["rhos"]], c["validate"], c["batched"])
+        c["obs"] = ctor_outcome([pf(r) for r in c["rhos"]], c["validate"], c["batched"], c.get("shape"))
     elif k == "cop":
-        c["obs"] = enc(run_cop([pf(c["rho"])], [(pf(c["u"]), pf(c["v"]))], c["validate"], c["batched"])[0])
+        if c.get("shape"):
+            c["obs"] = enc(run_cop([pf(t) for t in c["all_rhos"]], [(pf(a), pf(b)) for a, b in c["all_pts"]],
+                                   c["validate"], True, c["shape"])[c["idx"]])
+        else:
+            c["obs"] = enc(run_cop([pf(c["rho"])], [(pf(c["u"]), pf(c["v"]))], c["validate"], c["batched"])[0])
     elif k in ("mvn", "mvnm"):
         c["kind"] = "mvn"
         g = c["group"]
